@@ -26,6 +26,14 @@
 //!   separated) and R - r +- delta (crossing / nested), delta = 1e-8 … 1e-3, i.e. 10 … 10^6 times the
 //!   library's tolerance; the class is decided by the sign of delta.  (The lattice families reach large
 //!   radii only together with large scales, never a large RATIO of radii.)
+//! * NEARLY EQUAL RADII / NEARLY CONCENTRIC circles: pairs whose radii differ by a multiple of g = 65 * 2^-k
+//!   (0.5 … 6e-8) and whose centres are g, g + delta or g - delta apart along the twelve rational directions of
+//!   hypotenuse 65: exact internal tangency (TouchInside demanded), its two sides (crossing / nested, decided by
+//!   the sign of delta) and nearly concentric pairs of equal and almost equal radii (crossing) or of radii
+//!   differing by more than the centre distance (nested).  Radii 1 … 999.5 and centres up to 933 are generic
+//!   53-bit numbers, not lattice values; every fed number is an integer multiple of 2^-43, so the class is
+//!   decided in i128 on exactly the numbers handed to the library.  (The lattice families reach internal
+//!   tangency only with radius differences of lattice size, i.e. >= 1.)
 //!
 //! Nothing here is sampled: all centres x radii x ordered point pairs of the stated lattice are visited.
 
@@ -57,6 +65,15 @@ type IP = (i64, i64);
 const RATIO_FLOOR: f64 = 1e-8;
 /// extreme-radius-ratio family: the fed centre distance must reproduce the intended delta this well (relatively)
 const RATIO_GAP_REL: f64 = 1e-3;
+
+/// nearly-equal-radii family: every fed number is an integer multiple of 2^-43 (an exact f64 below 2^10)
+const EQ_BITS: u32 = 43;
+const EQ_UNIT: f64 = 1.0 / (1u64 << EQ_BITS) as f64;
+/// nearly-equal-radii family: radius differences and centre distances are multiples of 65 * 2^-k; 65 is the
+/// hypotenuse of (39,52) = 13 * (3,4), (25,60) = 5 * (5,12), (16,63), (33,56), so offsets in those directions are exact
+const EQ_HYP: i64 = 65;
+/// nearly-equal-radii family: largest admissible k (g = 65 * 2^-30 = 6.05e-8, g / 2 is still 30x the library tolerance)
+const EQ_MAX_K: u32 = 30;
 
 fn pert_tag(i: usize) -> String {
     format!("{:+e}", PERTS[i])
@@ -189,6 +206,15 @@ enum C {
     RatioCcNoneInside,
     RatioObsIntersect,
     RatioObsTouch,
+    EqCcTouchInside,
+    EqCcTouchInsideFarCentre,
+    EqCcIntersect,
+    EqCcIntersectConcentric,
+    EqCcNoneInside,
+    EqCcNoneInsideConcentric,
+    EqObsTouchInside,
+    EqObsIntersect,
+    EqSkippedReach,
     N,
 }
 
@@ -244,6 +270,15 @@ const CNAMES: [&str; C::N as usize] = [
     "ratio_cc_exact_none_inside",
     "ratio_cc_observed_intersect",
     "ratio_cc_observed_touch",
+    "eq_cc_exact_touch_inside",
+    "eq_cc_exact_touch_inside_centre_coordinate_beyond_100",
+    "eq_cc_exact_intersect",
+    "eq_cc_exact_intersect_nearly_concentric",
+    "eq_cc_exact_none_inside",
+    "eq_cc_exact_none_inside_nearly_concentric",
+    "eq_cc_observed_touch_inside",
+    "eq_cc_observed_intersect",
+    "eq_cc_skipped_a_circle_reaches_beyond_1e3",
 ];
 
 #[derive(Clone)]
@@ -268,6 +303,16 @@ struct Acc {
     ratio_min_apart: f64,
     /// extreme-radius-ratio family: failing cases per (check, R, r, centre distance)
     ratio_fails: BTreeMap<String, u64>,
+    /// nearly-equal-radii family: smallest non-zero |exact distance from internal tangency|, largest relative
+    /// disagreement between that and the intended one, largest |coordinate| on any fed circle, and over accepted
+    /// answers the largest distance of a returned point from a circle / smallest mutual distance of two points
+    eq_gap: f64,
+    eq_gap_rel_err: f64,
+    eq_reach: f64,
+    eq_max_off: f64,
+    eq_min_apart: f64,
+    /// nearly-equal-radii family: failing calls per (check, g)
+    eq_fails: BTreeMap<String, u64>,
     fails: BTreeMap<&'static str, (Key, Violation)>,
     fail_counts: BTreeMap<&'static str, u64>,
     notes: BTreeMap<&'static str, (Key, Value)>,
@@ -291,6 +336,12 @@ impl Acc {
             ratio_max_off: 0.0,
             ratio_min_apart: f64::INFINITY,
             ratio_fails: BTreeMap::new(),
+            eq_gap: f64::INFINITY,
+            eq_gap_rel_err: 0.0,
+            eq_reach: 0.0,
+            eq_max_off: 0.0,
+            eq_min_apart: f64::INFINITY,
+            eq_fails: BTreeMap::new(),
             fails: BTreeMap::new(),
             fail_counts: BTreeMap::new(),
             notes: BTreeMap::new(),
@@ -339,6 +390,14 @@ impl Acc {
         self.ratio_min_apart = self.ratio_min_apart.min(o.ratio_min_apart);
         for (f, n) in o.ratio_fails {
             *self.ratio_fails.entry(f).or_insert(0) += n;
+        }
+        self.eq_gap = self.eq_gap.min(o.eq_gap);
+        self.eq_gap_rel_err = self.eq_gap_rel_err.max(o.eq_gap_rel_err);
+        self.eq_reach = self.eq_reach.max(o.eq_reach);
+        self.eq_max_off = self.eq_max_off.max(o.eq_max_off);
+        self.eq_min_apart = self.eq_min_apart.min(o.eq_min_apart);
+        for (f, n) in o.eq_fails {
+            *self.eq_fails.entry(f).or_insert(0) += n;
         }
         for (f, n) in o.fail_counts {
             *self.fail_counts.entry(f).or_insert(0) += n;
@@ -1139,6 +1198,291 @@ impl RatioFamily {
 }
 
 // ------------------------------------------------------------------------------------------------
+// circle–circle: nearly equal radii, nearly concentric (internal tangency and its neighbourhood)
+// ------------------------------------------------------------------------------------------------
+
+/// grid integer -> the f64 handed to the library (exact for |v| < 2^53, which `check_cc_eq` verifies)
+fn eq_f(v: i64) -> f64 {
+    v as f64 * EQ_UNIT
+}
+
+/// a number of the family's lists -> the nearest grid integer (the grid value is what the family uses)
+fn eq_grid(x: f64) -> i64 {
+    (x / EQ_UNIT).round() as i64
+}
+
+/// Circle a (centre `c`, radius `ra`; grid integers, unit 2^-43) and circle b of radius ra - th * g / 2, where
+/// g = 65 * 2^-k, whose centre lies in direction `dir` / 65 at distance g + sd from a's.  sd = 0: the offset is
+/// the exact vector dir * 2^-k, so th = 2 is an exact internal tangency; otherwise the offset is rounded to the
+/// grid and the class is decided from the rounded integers.
+struct EqCase {
+    ra: i64,
+    k: u32,
+    c: IP,
+    dir: (i64, i64),
+    th: i64,
+    sd: f64,
+}
+
+impl EqCase {
+    /// g = 65 * 2^-k (exact)
+    fn g(&self) -> f64 {
+        EQ_HYP as f64 / (1u64 << self.k) as f64
+    }
+    /// ra - rb in grid units
+    fn rd(&self) -> i64 {
+        self.th * EQ_HYP * (1i64 << (EQ_BITS - 1 - self.k))
+    }
+    /// b's centre minus a's in grid units
+    fn off(&self) -> IP {
+        let (p, q) = self.dir;
+        if self.sd == 0.0 {
+            let m = 1i64 << (EQ_BITS - self.k);
+            (p * m, q * m)
+        } else {
+            let d = self.g() + self.sd;
+            (eq_grid(p as f64 / EQ_HYP as f64 * d), eq_grid(q as f64 / EQ_HYP as f64 * d))
+        }
+    }
+    /// the intended signed distance of the centre distance from the internal-tangency distance ra - rb
+    fn want(&self) -> f64 {
+        self.g() * (2 - self.th) as f64 / 2.0 + self.sd
+    }
+    /// the family's shape: a rational direction of hypotenuse 65, 1 <= k <= 30, rb >= ra / 2; either the centre
+    /// distance is exactly g (any radius difference other than g is then >= g / 2 >= 3e-8 away from tangency), or
+    /// the radius difference is g and the centre distance g +- delta with 1e-8 <= delta <= g / 2
+    fn well_formed(&self) -> bool {
+        let (p, q) = self.dir;
+        (1..=EQ_MAX_K).contains(&self.k)
+            && p * p + q * q == EQ_HYP * EQ_HYP
+            && (0..=64).contains(&self.th)
+            && self.ra > 0
+            && self.ra < 1i64 << 53
+            && self.c.0.abs() < 1i64 << 53
+            && self.c.1.abs() < 1i64 << 53
+            && 2 * self.rd() <= self.ra
+            && (self.sd == 0.0 || (self.th == 2 && self.sd.abs() >= RATIO_FLOOR && self.sd.abs() <= self.g() / 2.0))
+    }
+    fn rb_text(&self) -> String {
+        match self.th {
+            0 => "ra".into(),
+            1 => "ra-g/2".into(),
+            2 => "ra-g".into(),
+            t if t % 2 == 0 => format!("ra-{}g", t / 2),
+            t => format!("ra-{t}g/2"),
+        }
+    }
+    fn dist_text(&self) -> String {
+        if self.sd == 0.0 {
+            "g".into()
+        } else {
+            format!("g{}{:e}", if self.sd > 0.0 { '+' } else { '-' }, self.sd.abs())
+        }
+    }
+    fn sig(&self) -> String {
+        format!("g=65*2^-{};ra={:?};rb={};c=({:?},{:?});dir={}/65,{}/65;d={}", self.k, eq_f(self.ra), self.rb_text(), eq_f(self.c.0), eq_f(self.c.1), self.dir.0, self.dir.1, self.dist_text())
+    }
+    fn replay(&self, fam: &str) -> Value {
+        json!({"case": "cc_eq", "family": fam, "grid_unit": "2^-43", "k": self.k, "ra_grid": self.ra, "centre_grid": [self.c.0, self.c.1], "dir": [self.dir.0, self.dir.1],
+               "radius_difference_in_half_g": self.th, "signed_delta": self.sd})
+    }
+    fn from_json(v: &Value) -> Option<EqCase> {
+        let k = EqCase {
+            ra: v["ra_grid"].as_i64()?,
+            k: u32::try_from(v["k"].as_u64()?).ok()?,
+            c: (v["centre_grid"][0].as_i64()?, v["centre_grid"][1].as_i64()?),
+            dir: (v["dir"][0].as_i64()?, v["dir"][1].as_i64()?),
+            th: v["radius_difference_in_half_g"].as_i64()?,
+            sd: v["signed_delta"].as_f64()?,
+        };
+        k.well_formed().then_some(k)
+    }
+}
+
+/// One pair of the nearly-equal-radii family against the real `intersect_cc`, in both argument orders.
+/// Demanded: the kind (TouchInside only for the exact tangency, otherwise Intersect / None by the exact sign),
+/// every returned point on both circles within 1e-7, two returned points distinct.  Where on the two almost
+/// coincident circles the points sit is not compared.
+fn check_cc_eq(acc: &mut Acc, key: Key, k: &EqCase) {
+    assert!(k.well_formed(), "check_cc_eq needs a case of the family's shape");
+    let off = k.off();
+    let (b, rb) = ((k.c.0 + off.0, k.c.1 + off.1), k.ra - k.rd());
+    // every fed number is an integer number of grid units below 2^53, so the f64 handed over IS that number
+    let fed = [k.c.0, k.c.1, k.ra, b.0, b.1, rb];
+    assert!(rb > 0 && fed.iter().all(|v| v.abs() < 1i64 << 53 && (eq_f(*v) / EQ_UNIT) as i64 == *v), "nearly-equal-radii family: a fed number is not an exact f64");
+    // domain: all points of both circles within |coordinate| <= 1e3
+    let reach = [(k.c, k.ra), (b, rb)].iter().map(|(c, r)| c.0.abs().max(c.1.abs()) + r).max().unwrap();
+    if reach > eq_grid(COORD_LIMIT) {
+        acc.inc(C::SkippedOutOfDomain);
+        acc.inc(C::EqSkippedReach);
+        return;
+    }
+    acc.eq_reach = acc.eq_reach.max(eq_f(reach));
+
+    // exact class from the fed integers: centre distance^2 against (ra - rb)^2 (and far below (ra + rb)^2)
+    let dd = (off.0 as i128) * (off.0 as i128) + (off.1 as i128) * (off.1 as i128);
+    let rd = k.rd() as i128;
+    let sum = (k.ra + rb) as i128;
+    assert!(dd > 0 && dd < sum * sum, "nearly-equal-radii family: centres coincide or are further apart than ra + rb");
+    let exact = if dd == rd * rd {
+        CcKind::TouchInside
+    } else if dd < rd * rd {
+        CcKind::None
+    } else {
+        CcKind::Intersect
+    };
+    // exact signed distance from internal tangency, d - (ra - rb) = (d^2 - (ra - rb)^2) / (d + (ra - rb))
+    let gap = if dd == rd * rd { 0.0 } else { (dd - rd * rd) as f64 / ((dd as f64).sqrt() + rd as f64) * EQ_UNIT };
+    let want = k.want();
+    if gap != 0.0 {
+        acc.eq_gap = acc.eq_gap.min(gap.abs());
+    }
+    acc.eq_gap_rel_err = acc.eq_gap_rel_err.max(if want != 0.0 {
+        ((gap - want) / want).abs()
+    } else if gap != 0.0 {
+        f64::INFINITY
+    } else {
+        0.0
+    });
+    let concentric = k.th != 2;
+    match exact {
+        CcKind::TouchInside => {
+            acc.inc(C::EqCcTouchInside);
+            if k.c.0.abs().max(k.c.1.abs()) >= eq_grid(100.0) {
+                acc.inc(C::EqCcTouchInsideFarCentre);
+            }
+        }
+        CcKind::Intersect => {
+            acc.inc(C::EqCcIntersect);
+            if concentric {
+                acc.inc(C::EqCcIntersectConcentric);
+            }
+        }
+        _ => {
+            acc.inc(C::EqCcNoneInside);
+            if concentric {
+                acc.inc(C::EqCcNoneInsideConcentric);
+            }
+        }
+    }
+    if exact != CcKind::None {
+        acc.inc(C::Nontrivial);
+    }
+
+    let ca = Circle::new(Point::new(eq_f(k.c.0), eq_f(k.c.1)), eq_f(k.ra));
+    let cb = Circle::new(Point::new(eq_f(b.0), eq_f(b.1)), eq_f(rb));
+    let res_ab = catch(|| util::intersect_cc(&ca, &cb));
+    let res_ba = catch(|| util::intersect_cc(&cb, &ca));
+    acc.inc(C::Evals);
+    acc.inc(C::Evals);
+    let what = || {
+        format!(
+            "circle a centre {} r={:?} and circle b centre {} r={:?} (radii differ by {:e}; b's centre in direction ({}/65,{}/65) at distance {} from a's, g = 65*2^-{} = {:e}; all numbers exact multiples of 2^-43): {}",
+            ps(&ca.c), ca.r, ps(&cb.c), cb.r, eq_f(k.rd()), k.dir.0, k.dir.1, k.dist_text(), k.k, k.g(),
+            match exact {
+                CcKind::TouchInside => "they touch exactly from the inside".to_string(),
+                CcKind::Intersect => format!("they cross in two points, the centre distance is {:e} above the internal-tangency distance (library tolerance 1e-9)", gap),
+                _ => format!("b lies inside a without contact, the centre distance is {:e} below the internal-tangency distance (library tolerance 1e-9)", -gap),
+            }
+        )
+    };
+    let bucket = |check: &str| format!("{check} g=65*2^-{} rb={} d={}", k.k, k.rb_text(), k.dist_text());
+    for (which, res) in [("(a,b)", &res_ab), ("(b,a)", &res_ba)] {
+        let v = match res {
+            Err(_) => {
+                let s = cc_obs_string(res);
+                *acc.eq_fails.entry(bucket("panic")).or_insert(0) += 1;
+                acc.fail("cc_eq_panic", key, || Violation::new(format!("cc_eq_panic:{}", k.sig()), format!("intersect_cc{which} panicked on nearly equal circles: {}: {s}", what()), k.replay("cc_eq_panic")));
+                continue;
+            }
+            Ok(v) => v,
+        };
+        if which == "(a,b)" {
+            match cc_kind_of(v) {
+                CcKind::Intersect => acc.inc(C::EqObsIntersect),
+                CcKind::TouchInside => acc.inc(C::EqObsTouchInside),
+                _ => {}
+            }
+        }
+        if cc_kind_of(v) != exact {
+            let s = cc_obs_string(res);
+            *acc.eq_fails.entry(bucket("kind")).or_insert(0) += 1;
+            acc.fail("cc_eq_kind", key, || Violation::new(format!("cc_eq_kind:{}", k.sig()), format!("intersect_cc{which} kind on nearly equal circles: {}: exact class {:?}, library returned {s}", what(), exact), k.replay("cc_eq_kind")));
+        }
+        let pts = cc_points(v);
+        let offs: Vec<f64> = pts.iter().flat_map(|p| [off_circle(p, &ca.c, ca.r), off_circle(p, &cb.c, cb.r)]).collect();
+        let apart = if pts.len() == 2 { d2(pts[0].x, pts[0].y, pts[1].x, pts[1].y) } else { f64::INFINITY };
+        if !(offs.iter().all(|w| within(*w)) && apart > TOL) {
+            let s = cc_obs_string(res);
+            *acc.eq_fails.entry(bucket("points")).or_insert(0) += 1;
+            acc.fail("cc_eq_points", key, || {
+                Violation::new(format!("cc_eq_points:{}", k.sig()), format!("intersect_cc{which} points on nearly equal circles: {}: library returned {s}; per point (off circle a, off circle b) = {:?} (tolerance 1e-7), mutual distance {:?}", what(), offs, apart), k.replay("cc_eq_points"))
+            });
+        } else if cc_kind_of(v) == exact {
+            acc.eq_max_off = offs.iter().fold(acc.eq_max_off, |m, w| m.max(*w));
+            acc.eq_min_apart = acc.eq_min_apart.min(apart);
+        }
+    }
+    // samples: radii differing by less than 1e-4, an oblique direction, a centre far from the origin
+    if k.k >= 20 && k.dir.0 != 0 && k.dir.1 != 0 && k.c.0.abs() >= eq_grid(100.0) {
+        let cat = match (exact, concentric) {
+            (CcKind::TouchInside, _) => "cc_eq_touch_inside",
+            (CcKind::Intersect, false) => "cc_eq_crossing_next_to_tangency",
+            (CcKind::Intersect, true) => "cc_eq_crossing_nearly_concentric",
+            (_, false) => "cc_eq_nested_next_to_tangency",
+            (_, true) => "cc_eq_nested_nearly_concentric",
+        };
+        acc.note(cat, key, || {
+            json!({"call": "intersect_cc", "a": {"centre": pj(&ca.c), "r": ca.r}, "b": {"centre": pj(&cb.c), "r": cb.r}, "g": format!("65*2^-{}", k.k), "rb": k.rb_text(), "centre_distance": k.dist_text(),
+                   "exact_distance_from_internal_tangency": gap, "exact": format!("{:?}", exact), "observed_ab": cc_obs_string(&res_ab), "observed_ba": cc_obs_string(&res_ba)})
+        });
+    }
+}
+
+/// The nearly-equal-radii family, mildest first: g = 65 * 2^-k descending, radius ascending; then centre (origin
+/// first), direction (axes first) and per direction: the exact tangency, centre distance g + delta (crossing)
+/// and g - delta (nested) for delta descending, then the nearly concentric pairs (centre distance g, radius
+/// difference th * g / 2 for th in `ths`).  Members that are not `well_formed` (rb < ra / 2, delta > g / 2) are
+/// not part of the family.
+struct EqFamily {
+    tfi: u64,
+    ks: Vec<u32>,
+    radii: Vec<i64>,
+    centres: Vec<IP>,
+    dirs: Vec<(i64, i64)>,
+    deltas: Vec<f64>,
+    ths: Vec<i64>,
+}
+
+impl EqFamily {
+    fn run(&self) -> Acc {
+        let mut variants: Vec<(i64, f64)> = vec![(2, 0.0)];
+        variants.extend(self.deltas.iter().flat_map(|d| [(2, *d), (2, -*d)]));
+        variants.extend(self.ths.iter().map(|t| (*t, 0.0)));
+        (0..self.ks.len() * self.radii.len())
+            .into_par_iter()
+            .map(|major| {
+                let mut acc = Acc::new();
+                let (ki, ri) = (major / self.radii.len(), major % self.radii.len());
+                let mut minor = 0u64;
+                for &c in &self.centres {
+                    for &dir in &self.dirs {
+                        for &(th, sd) in &variants {
+                            let k = EqCase { ra: self.radii[ri], k: self.ks[ki], c, dir, th, sd };
+                            if k.well_formed() {
+                                check_cc_eq(&mut acc, (self.tfi, major as u64, minor), &k);
+                            }
+                            minor += 1;
+                        }
+                    }
+                }
+                acc
+            })
+            .reduce(Acc::new, Acc::merge)
+    }
+}
+
+// ------------------------------------------------------------------------------------------------
 // line–line, parallel
 // ------------------------------------------------------------------------------------------------
 
@@ -1680,6 +2024,15 @@ fn confirm(v: &Value) -> Result<(), String> {
             None => Ok(()),
         };
     }
+    if v["case"].as_str() == Some("cc_eq") {
+        let k = EqCase::from_json(v).ok_or("replay file does not describe a case of the nearly-equal-radii family")?;
+        let mut acc = Acc::new();
+        check_cc_eq(&mut acc, (0, 0, 0), &k);
+        return match acc.fails.iter().find(|(f, _)| **f == fam.as_str()) {
+            Some((_, (_, viol))) => Err(viol.summary.clone()),
+            None => Ok(()),
+        };
+    }
     let tf = Tf::from_json(&v["tf"]);
     let g = |name: &str| -> IP { (v[name][0].as_i64().unwrap(), v[name][1].as_i64().unwrap()) };
     // replay files of the near-boundary family name the radius change; anything else is the plain case
@@ -1837,6 +2190,32 @@ fn main() {
         info
     };
 
+    // nearly equal radii / nearly concentric: every number on the 2^-43 grid; generic (non-lattice) radii and centres
+    let eqf = EqFamily {
+        tfi: tfs.len() as u64 + 2,
+        ks: args.tier.pick(vec![7, 10, 13, 16, 20, 23, 26, 30], (7..=EQ_MAX_K).collect()),
+        radii: [1.0, 8.5, 98.6, 250.3, 512.9, 731.2, 999.5].iter().map(|r| eq_grid(*r)).collect(),
+        centres: [(0.0, 0.0), (3.0, -2.0), (12.7, -8.3), (417.77, -203.21), (-233.1, 260.9), (-480.3, 466.9), (-933.1, 871.9)].iter().map(|c| (eq_grid(c.0), eq_grid(c.1))).collect(),
+        dirs: vec![(65, 0), (0, 65), (-65, 0), (0, -65), (39, 52), (-52, 39), (-25, -60), (60, -25), (16, 63), (-63, 16), (-33, -56), (56, -33)],
+        deltas: ratio.deltas.clone(),
+        ths: vec![0, 1, 4, 16],
+    };
+    let eq_info = {
+        let t0 = run.elapsed();
+        let acc = eqf.run();
+        let fails: BTreeMap<String, u64> = acc.eq_fails.clone();
+        let info = json!({"grid_unit": "2^-43", "g": eqf.ks.iter().map(|k| format!("65*2^-{k}")).collect::<Vec<_>>(), "g_min": EQ_HYP as f64 / (1u64 << eqf.ks.iter().max().unwrap()) as f64, "g_max": EQ_HYP as f64 / (1u64 << eqf.ks.iter().min().unwrap()) as f64,
+                          "radii_of_larger_circle": eqf.radii.iter().map(|r| eq_f(*r)).collect::<Vec<_>>(), "centres_of_larger_circle": eqf.centres.iter().map(|c| [eq_f(c.0), eq_f(c.1)]).collect::<Vec<_>>(),
+                          "directions_over_65": eqf.dirs.iter().map(|d| [d.0, d.1]).collect::<Vec<_>>(), "deltas_used_when_at_most_half_g": eqf.deltas,
+                          "configurations": ["rb = ra-g, d = g (exact internal tangency)", "rb = ra-g, d = g+delta (crossing)", "rb = ra-g, d = g-delta (nested)", "d = g, rb = ra (crossing)", "d = g, rb = ra-g/2 (crossing)", "d = g, rb = ra-2g (nested)", "d = g, rb = ra-8g (nested)"],
+                          "pairs": acc.get(C::EqCcTouchInside) + acc.get(C::EqCcIntersect) + acc.get(C::EqCcNoneInside), "pairs_skipped_reaching_beyond_1e3": acc.get(C::EqSkippedReach), "evaluations": acc.get(C::Evals),
+                          "min_nonzero_exact_distance_from_tangency": acc.eq_gap, "max_relative_disagreement_exact_vs_intended_distance_from_tangency": acc.eq_gap_rel_err, "max_abs_coordinate_on_circles": acc.eq_reach,
+                          "accepted_answers_max_point_distance_from_a_circle": acc.eq_max_off, "accepted_answers_min_mutual_distance_of_two_points": if acc.eq_min_apart.is_finite() { json!(acc.eq_min_apart) } else { Value::Null },
+                          "failing_calls_per_check_g_radii_distance": fails, "seconds": ((run.elapsed() - t0) * 100.0).round() / 100.0});
+        total = total.merge(acc);
+        info
+    };
+
     // ---- evidence -----------------------------------------------------------------------------
     for (i, name) in CNAMES.iter().enumerate() {
         run.cov(name, total.c[i]);
@@ -1844,7 +2223,7 @@ fn main() {
     run.cov("exhaustive", true);
     run.cov(
         "rule",
-        "lattice 1: all integer centres in [-N,N]^2 x radii 1..=R, lines through all ordered pairs of distinct lattice points; circle-line = every circle x every line, circle-circle = every ordered pair of circles (both argument orders called), line-line + parallel = every ordered pair of lines, position = every circle x every lattice point, contains = every line x every lattice point. lattice 2: the same enumeration on [-N2,N2]^2 fed through rotation (3/5,4/5),(5/13,12/13),(8/17,15/17), shift by quarters, integer scale (second line of line-line cases restricted to every ll_second_line_stride-th ordered pair). Classes decided exactly in i128 on the pre-image integers. near-boundary family: EVERY exactly tangent circle-line configuration, EVERY exactly tangent ordered circle pair (inside and outside) and EVERY exact border point met by the above, in every lattice image (radii up to ~480), is fed again with one fed radius changed by each of +-1e-8, +-3e-7, +-1e-5; the sign of the change decides the class (secant/miss, crossing/separated/nested, inside/outside), the configuration is |change| away from the boundary; demanded: the kind, every returned point on both primitives within 1e-7, two returned points distinct. skew plane: coordinates in units of 2^-19; every axis-parallel line spanning the scaled lattice box with its second defining point nudged sideways by +-2^-e, both orientations, against every ordinary lattice line in both argument orders and against every skew line (parallel / crossing decided in i128; returned point on both lines within 1e-7 when the exact point is within 1e3), and contains() of all lattice points, the defining points and the un-nudged endpoint. distinct_nontrivial = enumerated configurations (each a distinct input) whose exact class is a contact: circle-line Touch/Intersect, circle-circle Same/TouchInside/TouchOutside/Intersect, non-parallel line pairs, near-boundary secants and crossing circle pairs. extreme radius ratios: every (R, r, delta, centre, direction) of the lists under ratio_family, the smaller circle's centre at distance R+r-delta, R-r+delta (crossing: kind Intersect demanded), R+r+delta, R-r-delta (separated / nested: kind None demanded) from the larger one's along the direction, both argument orders; delta >= 1e-8 = 10x the library tolerance decides the class by its sign; demanded as in the near-boundary family: kind, every returned point on both circles within 1e-7, two returned points distinct",
+        "lattice 1: all integer centres in [-N,N]^2 x radii 1..=R, lines through all ordered pairs of distinct lattice points; circle-line = every circle x every line, circle-circle = every ordered pair of circles (both argument orders called), line-line + parallel = every ordered pair of lines, position = every circle x every lattice point, contains = every line x every lattice point. lattice 2: the same enumeration on [-N2,N2]^2 fed through rotation (3/5,4/5),(5/13,12/13),(8/17,15/17), shift by quarters, integer scale (second line of line-line cases restricted to every ll_second_line_stride-th ordered pair). Classes decided exactly in i128 on the pre-image integers. near-boundary family: EVERY exactly tangent circle-line configuration, EVERY exactly tangent ordered circle pair (inside and outside) and EVERY exact border point met by the above, in every lattice image (radii up to ~480), is fed again with one fed radius changed by each of +-1e-8, +-3e-7, +-1e-5; the sign of the change decides the class (secant/miss, crossing/separated/nested, inside/outside), the configuration is |change| away from the boundary; demanded: the kind, every returned point on both primitives within 1e-7, two returned points distinct. skew plane: coordinates in units of 2^-19; every axis-parallel line spanning the scaled lattice box with its second defining point nudged sideways by +-2^-e, both orientations, against every ordinary lattice line in both argument orders and against every skew line (parallel / crossing decided in i128; returned point on both lines within 1e-7 when the exact point is within 1e3), and contains() of all lattice points, the defining points and the un-nudged endpoint. distinct_nontrivial = enumerated configurations (each a distinct input) whose exact class is a contact: circle-line Touch/Intersect, circle-circle Same/TouchInside/TouchOutside/Intersect, non-parallel line pairs, near-boundary secants and crossing circle pairs. extreme radius ratios: every (R, r, delta, centre, direction) of the lists under ratio_family, the smaller circle's centre at distance R+r-delta, R-r+delta (crossing: kind Intersect demanded), R+r+delta, R-r-delta (separated / nested: kind None demanded) from the larger one's along the direction, both argument orders; delta >= 1e-8 = 10x the library tolerance decides the class by its sign; demanded as in the near-boundary family: kind, every returned point on both circles within 1e-7, two returned points distinct. nearly equal radii / nearly concentric: with g = 65*2^-k, every (k, ra, centre, direction/65) of the lists under eq_family (radii and centres are generic 53-bit numbers, every fed number an exact multiple of 2^-43): rb = ra-g with b's centre exactly g from a's along the direction (exact internal tangency: TouchInside demanded) and g+delta / g-delta for every listed delta <= g/2 (crossing: Intersect / nested: None, decided in i128 from the fed numbers), and centre distance exactly g with rb = ra, ra-g/2 (crossing) and ra-2g, ra-8g (nested); pairs with rb < ra/2 are not formed; both argument orders; demanded: kind, every returned point on both circles within 1e-7, two returned points distinct",
     );
     run.cov("lattice1", json!({"half_width": n1, "max_radius": r1}));
     run.cov("lattice2", json!({"half_width": n2, "max_radius": r2, "rotations": ["3/5,4/5", "5/13,12/13", "8/17,15/17"], "shifts_in_quarters": shifts, "scales": scale_notes}));
@@ -1852,6 +2231,7 @@ fn main() {
     run.cov("near_boundary_radius_changes", PERTS[1..].to_vec());
     run.cov("skew_plane", skew_info);
     run.cov("ratio_family", ratio_info);
+    run.cov("eq_family", eq_info);
     run.cov(
         "skew_plane_min_nonzero_boundary_gap",
         json!({"parallel_sine": total.gap_skew_parallel, "contains_abs": total.gap_skew_contains, "note": "exact, from the integer coordinates; library EPS = 1e-9, required > 2e-9"}),
@@ -1870,6 +2250,7 @@ fn main() {
     run.assume("tangent / identical / border configurations of lattice 2 are fed as f64 images that differ from the exact configuration by rounding (~1e-13 at magnitude 1e3), far inside the library's own 1e-9 tolerance, so the exact class is still demanded");
     run.assume("near-boundary family: the tangent configuration is fed with rounding of ~1e-13 (lattice 1: none), so after a radius change of magnitude >= 1e-8 the fed configuration is that far (+-1e-12) from the boundary and on the side given by the sign of the change; the property excludes only configurations within 1e-9 (position: within 1e-9 of the radius, relatively - such changes are skipped and counted)");
     run.assume("extreme-radius-ratio family: radii and the larger circle's centre are dyadic (exact); the smaller circle's centre is computed in f64 (direction cosines p/h, q/h, one multiplication and one addition per coordinate), so the fed centre distance differs from the intended R+-r+-delta by rounding of ~1e-13; the engine measures it (min_measured_distance_from_tangency) and refuses to run if it disagrees with the intended delta by more than 0.1 %, so every fed pair is >= 0.999e-8 from the tangency boundary on the side given by the sign of delta; all points of all circles have |coordinate| <= 1e3 (checked)");
+    run.assume("nearly-equal-radii family: centres, radii and centre offsets are integers in units of 2^-43 below 2^53, so each f64 handed to the library is exactly that number (converted back and compared for every pair); tangent / crossing / nested is decided by comparing the squared centre distance with (ra-rb)^2 in i128 on those integers, and the distance from tangency is computed from the same integers: 0 for the tangent pairs (offset = direction * 2^-k exactly), otherwise >= 0.999e-8 = 10x the library tolerance and within 0.1 % of the intended g(1-th/2)+-delta (the engine refuses to run otherwise); all points of both circles have |coordinate| <= 1e3 (other pairs are skipped and counted); for two almost coincident circles the position of a point ALONG them is not determined to 1e-7 by the data and is not compared");
     run.assume("near-boundary and skew families demand what the property states of a returned point (on both primitives within 1e-7) and not its position along two almost coincident directions, which the data do not determine to 1e-7");
     run.assume("the 1e-7 accuracy clause is applied only where all coordinates involved are <= 1e3 (line-line intersection points beyond that are counted in skipped_out_of_domain; their kind is still checked)");
 
@@ -1900,6 +2281,12 @@ fn main() {
     if !(total.ratio_reach <= COORD_LIMIT) {
         run.machinery_failure(&format!("extreme-radius-ratio family: a fed circle reaches |coordinate| {:?} > 1e3", total.ratio_reach));
     }
+    if !(total.eq_gap_rel_err <= RATIO_GAP_REL) || !(total.eq_gap >= RATIO_FLOOR * (1.0 - RATIO_GAP_REL)) {
+        run.machinery_failure(&format!("nearly-equal-radii family: fed centre distances do not reproduce the intended distances from tangency (min non-zero exact distance {:?}, max relative disagreement {:?})", total.eq_gap, total.eq_gap_rel_err));
+    }
+    if !(total.eq_reach <= COORD_LIMIT) {
+        run.machinery_failure(&format!("nearly-equal-radii family: a fed circle reaches |coordinate| {:?} > 1e3", total.eq_reach));
+    }
     if !PERTS[1..].iter().all(|d| d.abs() > NEAR_FLOOR) {
         run.machinery_failure("a near-boundary radius change is inside the excluded tolerance band");
     }
@@ -1915,6 +2302,13 @@ fn main() {
         (C::RatioCcIntersect, "crossing pairs with an extreme radius ratio"),
         (C::RatioCcNoneOutside, "separated pairs with an extreme radius ratio"),
         (C::RatioCcNoneInside, "nested pairs with an extreme radius ratio"),
+        (C::EqCcTouchInside, "exact internal tangencies of nearly equal circles"),
+        (C::EqCcTouchInsideFarCentre, "exact internal tangencies of nearly equal circles centred beyond |coordinate| 100"),
+        (C::EqCcIntersect, "crossing nearly equal circles"),
+        (C::EqCcIntersectConcentric, "crossing nearly concentric circles"),
+        (C::EqCcNoneInside, "nested nearly equal circles"),
+        (C::EqCcNoneInsideConcentric, "nested nearly concentric circles"),
+        (C::EqObsTouchInside, "TouchInside answers for nearly equal circles"),
         (C::SkewLlParallel, "parallel pairs in the skew plane"),
         (C::SkewLlPointChecked, "skew-plane crossings within 1e3"),
         (C::SkewLlSteepFirst, "skew-plane crossings whose first line has a minor coefficient below 1e-6"),
